@@ -49,12 +49,14 @@ structure LoopInv (c : Ctx) (fm : List FirstSet) (K : List Item) (queue : List I
   closed : ∀ x ∈ acc.raw, ∀ imp, impliedItems c fm x = some imp → ∀ y ∈ imp, y ∈ acc.raw ∨ y ∈ queue
   reach : ∀ y, y ∈ acc.raw ∨ y ∈ queue → Reach c fm K y
   gen : ∀ y, y ∈ acc.raw ∨ y ∈ queue → y ∈ K ∨ ∃ x ∈ acc.raw, ∃ imp, impliedItems c fm x = some imp ∧ y ∈ imp
+  total : ∀ x ∈ acc.raw, ∃ imp, impliedItems c fm x = some imp
 
 theorem closureLoop_inv (c : Ctx) (fm : List FirstSet) (K : List Item) :
     ∀ (fuel : Nat) (queue : List Item) (acc : Oset Item) (S : State), LoopInv c fm K queue acc →
       closureLoop c fm fuel queue acc = some (some S) →
       Oset.Sorted S ∧ (∀ x ∈ K, x ∈ S) ∧ Closed c fm S ∧ (∀ y ∈ S, Reach c fm K y) ∧
-        ∀ y ∈ S, y ∈ K ∨ ∃ x ∈ S, ∃ imp, impliedItems c fm x = some imp ∧ y ∈ imp := by
+        (∀ y ∈ S, y ∈ K ∨ ∃ x ∈ S, ∃ imp, impliedItems c fm x = some imp ∧ y ∈ imp) ∧
+        ∀ x ∈ S, ∃ imp, impliedItems c fm x = some imp := by
   intro fuel
   induction fuel with
   | zero => intro queue acc S _ h; simp [closureLoop] at h
@@ -64,7 +66,7 @@ theorem closureLoop_inv (c : Ctx) (fm : List FirstSet) (K : List Item) :
     | nil =>
       simp only [closureLoop] at h
       cases h
-      refine ⟨inv.sorted, ?_, ?_, ?_, ?_⟩
+      refine ⟨inv.sorted, ?_, ?_, ?_, ?_, inv.total⟩
       · intro x hx
         rcases inv.kernel x hx with h | h
         · exact h
@@ -81,7 +83,7 @@ theorem closureLoop_inv (c : Ctx) (fm : List FirstSet) (K : List Item) :
       · -- already present
         rename_i hc
         have hq : q ∈ acc.raw := (Oset.contains_iff acc q inv.sorted).mp hc
-        refine ih qs acc S ⟨inv.sorted, ?_, ?_, ?_, ?_⟩ h
+        refine ih qs acc S ⟨inv.sorted, ?_, ?_, ?_, ?_, inv.total⟩ h
         · intro x hx
           rcases inv.kernel x hx with h | h
           · exact Or.inl h
@@ -107,7 +109,7 @@ theorem closureLoop_inv (c : Ctx) (fm : List FirstSet) (K : List Item) :
         · cases h
         · rename_i imp himp
           have hmem : ∀ y, y ∈ (acc.insert q).raw ↔ y = q ∨ y ∈ acc.raw := fun y => Oset.mem_insert acc q y inv.sorted
-          refine ih (qs ++ imp) (acc.insert q) S ⟨Oset.insert_sorted acc q inv.sorted, ?_, ?_, ?_, ?_⟩ h
+          refine ih (qs ++ imp) (acc.insert q) S ⟨Oset.insert_sorted acc q inv.sorted, ?_, ?_, ?_, ?_, ?_⟩ h
           · intro x hx
             rcases inv.kernel x hx with h | h
             · exact Or.inl ((hmem x).mpr (Or.inr h))
@@ -146,14 +148,19 @@ theorem closureLoop_inv (c : Ctx) (fm : List FirstSet) (K : List Item) :
             · rcases List.mem_append.mp hy with hy | hy
               · exact lift _ (inv.gen y (Or.inr (List.mem_cons_of_mem _ hy)))
               · exact Or.inr ⟨q, (hmem q).mpr (Or.inl rfl), imp, himp, hy⟩
+          · intro x hx
+            rcases (hmem x).mp hx with rfl | hx
+            · exact ⟨imp, himp⟩
+            · exact inv.total x hx
 
 /-- **`get_closure`, every grammar, every kernel**: the result is sorted, contains the kernel, is closed under
 implication and contains only what the kernel generates -/
 theorem closure_spec {c : Ctx} {fm : List FirstSet} {K : List Item} {fuel : Nat} {S : State}
     (h : closureLoop c fm fuel K Oset.new = some (some S)) :
     Oset.Sorted S ∧ (∀ x ∈ K, x ∈ S) ∧ Closed c fm S ∧ (∀ y ∈ S, Reach c fm K y) ∧
-      ∀ y ∈ S, y ∈ K ∨ ∃ x ∈ S, ∃ imp, impliedItems c fm x = some imp ∧ y ∈ imp := by
-  refine closureLoop_inv c fm K fuel K Oset.new S ⟨List.Pairwise.nil, ?_, ?_, ?_, ?_⟩ h
+      (∀ y ∈ S, y ∈ K ∨ ∃ x ∈ S, ∃ imp, impliedItems c fm x = some imp ∧ y ∈ imp) ∧
+      ∀ x ∈ S, ∃ imp, impliedItems c fm x = some imp := by
+  refine closureLoop_inv c fm K fuel K Oset.new S ⟨List.Pairwise.nil, ?_, ?_, ?_, ?_, ?_⟩ h
   · intro x hx; exact Or.inr hx
   · intro x hx; cases hx
   · intro y hy
@@ -164,6 +171,7 @@ theorem closure_spec {c : Ctx} {fm : List FirstSet} {K : List Item} {fuel : Nat}
     rcases hy with hy | hy
     · cases hy
     · exact Or.inl hy
+  · intro x hx; cases hx
 
 end Machine
 end KikiVerif
